@@ -56,10 +56,12 @@ def filter_empty(args: dict, meta: dict, info: dict):
             continue
 
         if val == "":
-            if key in meta:
-                del meta[key]
-            elif key in info:
-                del info[key]
+            # comment, source and private live in the info dictionary, the
+            # tracker and seed lists at the top level: a key of the same
+            # name in the other dictionary is not the field being cleared
+            if key in ("comment", "source", "private"):
+                info.pop(key, None)
+            meta.pop(key, None)
             del args[key]
             logger.debug("removeing empty fields %s", val)
 
